@@ -12,5 +12,4 @@ import ParsleyVerif.Props.C09
 #print axioms PV.Text.c09_bounds
 #print axioms PV.Text.c09_inbounds
 #print axioms PV.Text.c09_facts
-#print axioms PV.Text.c09_facts_wsmodes
 #print axioms PV.Text.c09_translated_expressions
